@@ -28,9 +28,12 @@ def gen(rng, tier, no, wide=False):
         r0 = case["params"]["rank"]
         ev = case["ranks"][r0]
         xs = [e for e in ev if e.get("ph") == "X" and "dur" in e]
-        hi = max(e["ts"] + e["dur"] for e in xs) + 10
+        lo = min(e["ts"] for e in xs)
         host = next(e for e in xs if e.get("cat") == "cpu_op")
-        ev[1:1] = [{"ph": "X", "cat": "cpu_op", "name": "aten::fill_", "pid": host["pid"], "tid": host["tid"], "ts": hi + 3 * k, "dur": 2} for k in range(1100)]
+        for e in ev:
+            if "ts" in e:
+                e["ts"] += 3400      # room for the early operators; they precede the first profiler step, so trimming keeps them
+        ev[1:1] = [{"ph": "X", "cat": "cpu_op", "name": "aten::fill_", "pid": host["pid"], "tid": host["tid"], "ts": lo + 3 * k, "dur": 2} for k in range(1100)]
         case["params"]["annotation"], case["params"]["instance"] = "", None      # the whole trace is analysed
         # ... and the device work sits on streams whose ids do not fit a signed byte
         for e in ev:
